@@ -129,7 +129,9 @@ def gen_session(rng, big=False):
 # ---------------------------------------------------------------------------
 
 def _ev(v):
-    return v if isinstance(v, int) and not isinstance(v, bool) else "<%s>" % type(v).__name__
+    from harness import c02_names
+    i = c02_names.index_of(v)
+    return "<%s>" % type(v).__name__ if i is None else i
 
 
 def snapshot(vr, nets, machine, cs):
@@ -137,7 +139,8 @@ def snapshot(vr, nets, machine, cs):
     from rig.place_and_route.constraints import (LocationConstraint, SameChipConstraint,
                                                  ReserveResourceConstraint, RouteEndpointConstraint,
                                                  AlignResourceConstraint)
-    rd = lambda d: sorted([str(k), x] for k, x in d.items())
+    from harness import c02_names
+    rd = lambda d: sorted([c02_names.res_key(k), x] for k, x in d.items())
     ecs = []
     for c in cs:
         if isinstance(c, LocationConstraint):
@@ -145,12 +148,12 @@ def snapshot(vr, nets, machine, cs):
         elif isinstance(c, SameChipConstraint):
             ecs.append(["same", [_ev(v) for v in c.vertices]])
         elif isinstance(c, ReserveResourceConstraint):
-            ecs.append(["res", str(c.resource), c.reservation.start, c.reservation.stop,
+            ecs.append(["res", c02_names.res_key(c.resource), c.reservation.start, c.reservation.stop,
                         None if c.location is None else list(c.location)])
         elif isinstance(c, RouteEndpointConstraint):
             ecs.append(["ep", _ev(c.vertex), int(c.route)])
         elif isinstance(c, AlignResourceConstraint):
-            ecs.append(["align", str(c.resource), c.alignment])
+            ecs.append(["align", c02_names.res_key(c.resource), c.alignment])
         else:
             ecs.append(["?", type(c).__name__])
     return {"vertices_resources": [[_ev(v), rd(d)] for v, d in vr.items()],
@@ -185,7 +188,8 @@ def call_placer(name, seed, prob, vr, nets, machine, cs):
         return c02.outcome(lambda: sequential.place(vr, nets, machine, cs))
     if name == "sequential-custom":
         co = [tuple(c) for c in prob["co"]]
-        return c02.outcome(lambda: sequential.place(vr, nets, machine, cs, list(prob["vo"]), iter(co)))
+        keys = list(vr)
+        return c02.outcome(lambda: sequential.place(vr, nets, machine, cs, [keys[v] for v in prob["vo"]], iter(co)))
     if name == "breadth_first":
         return c02.outcome(lambda: breadth_first.place(vr, nets, machine, cs))
     if name == "hilbert":
@@ -258,7 +262,8 @@ def _encode(out):
     from harness import c02
     if "ok" in out:
         p = out["ok"]
-        out["enc"] = c02.enc_placement(p) if all(isinstance(v, int) and not isinstance(v, bool) for v in p) else None
+        from harness import c02_names
+        out["enc"] = c02.enc_placement(p) if all(c02_names.index_of(v) is not None for v in p) else None
 
 
 def eval_sessions(ctx, sessions):
@@ -329,8 +334,15 @@ def eval_sessions(ctx, sessions):
 def unit_problem(rng, w, h, dead, dead_links, cap, reserve):
     """exactly-filling unit-demand problem: the working chips offer exactly as many units as there are vertices"""
     working = [(x, y) for x in range(w) for y in range(h) if (x, y) not in dead]
-    n = cap * len(working)
-    vr = [[v, [1], [True]] for v in range(n)]
+    n1 = cap * len(working)
+    # besides the vertices that fill the machine exactly, some that need nothing: {} / an explicit 0 / only a
+    # resource the machine lacks (with value 0)
+    z = rng.choice([0, 1, 2, 3]) if working else 0
+    n = n1 + z
+    vr = [[v, [1], [True]] for v in range(n1)] + [[v, [0], [rng.random() < 0.5]] for v in range(n1, n)]
+    rng.shuffle(vr)
+    vr = [[i, d, p] for i, (_, d, p) in enumerate(vr)]
+    foreign = [v for v, d, p in vr if d == [0] and not p[0] and rng.random() < 0.5]
     nets = [[v, [(v + 1) % n], 1] for v in range(n)] if n else []
     for _ in range(rng.choice([0, 2, n])):
         if n:
@@ -340,12 +352,13 @@ def unit_problem(rng, w, h, dead, dead_links, cap, reserve):
     co = list(working)
     rng.shuffle(co)
     co.insert(rng.randrange(len(co) + 1), (w + 1, 0))
-    return {"w": w, "h": h, "res": [cap + reserve], "exc": [], "dead": [list(c) for c in sorted(dead)],
-            "dead_links": [list(l) for l in sorted(dead_links)],
+    from harness import c02_names
+    return c02_names.draw(rng, {"w": w, "h": h, "res": [cap + reserve], "exc": [], "dead": [list(c) for c in sorted(dead)],
+            "dead_links": [list(l) for l in sorted(dead_links)], "foreign_zero": foreign,
             "vr": vr, "nets": nets, "cs": ([{"t": "res", "r": 0, "amt": reserve, "c": None}] if reserve else []),
             "ood": False, "unit": False, "vo": vo, "co": [list(c) for c in co],
             "seeds": [rng.randrange(2 ** 30) for _ in range(4)], "effort": rng.choice([0.1, 1.0]),
-            "max_temps": rng.choice([1, 2, 3]), "hilbert_bf": rng.random() < 0.5, "unit_r0": 0}
+            "max_temps": rng.choice([1, 2, 3]), "hilbert_bf": rng.random() < 0.5, "unit_r0": 0})
 
 
 def gen_machine_sequence(rng, big=False):
